@@ -273,8 +273,11 @@ public:
                 return ComplexInf;
             }
         } else {
-            return from_mpq(this->real_ / other.as_integer_class(),
-                            this->imaginary_ / other.as_integer_class());
+            // divide by a rational_class: with Boost.Multiprecision a
+            // rational 0 or 1 divided by an integer_class is not normalised
+            // (0/-4, 1/-4)
+            const rational_class divisor(other.as_integer_class());
+            return from_mpq(this->real_ / divisor, this->imaginary_ / divisor);
         }
     }
     /*! Divide other by the Complex
